@@ -23,12 +23,14 @@
 (***************************************************************************)
 EXTENDS Match, Integers, TLC
 
-CONSTANTS Clients, KeyPerms, Surveyed,
+CONSTANTS Clients, KeyPerms,
+          Surveyed,  \* BOOLEAN: peer brokers answer surveys (the mesh router reports established connections). Only the
+                     \* message store answers surveys (history across brokers: not modelled yet; must be FALSE when a
+                     \* behaviour replays history)
           Home       \* [Clients -> broker name]: the broker a client connects to.  With one broker this is the plain
                      \* single-broker specification; with several, the brokers are joined by gossip (Gossip.tla) and every
                      \* step of this module is taken at gossip QUIESCENCE: the cluster then behaves like one broker,
-                     \* except for what is kept per broker (the message store, and - while no peer connection is
-                     \* established at the mesh level - the presence survey)
+                     \* except for what is kept per broker (the message store, the presence status)
 
 VARIABLES conn,    \* [Clients -> {"new", "open", "closed"}]
           user,    \* [Clients -> STRING]      username given at CONNECT
@@ -221,10 +223,11 @@ Presence(c, k, w, syn, status, chg, qos) ==
                 r    == CASE chg = "on"  -> DoSubscribe(c, Pres(ssid), w, st0)
                           [] chg = "off" -> DoUnsubscribe(c, Pres(ssid), st0)
                           [] OTHER       -> [held |-> held, trie |-> trie, note |-> {}]
-                \* the status lists the local connections plus what the peers answer to a survey; the survey waits for
-                \* as many answers as the mesh router reports established connections (Surveyed: the harness' brokers
-                \* have none unless it installs a peer count, see Cluster stage of C05)
-                who  == { <<x, user[x]>> : x \in { y \in Direct(r.trie, ssid, {}) : Surveyed \/ Home[y] = Home[c] } }
+                \* the status lists the connections ON THE REQUESTER'S BROKER (C18: "the connections on that broker").  The
+                \* code also surveys the cluster, but broker.NewService registers only the message store as a survey
+                \* handler (surveyor.HandleFunc(s.storage)): no peer ever answers a "presence" query, so with or without
+                \* established peer connections the reply holds the local connections only - after the survey's 1 s wait
+                who  == { <<x, user[x]>> : x \in { y \in Direct(r.trie, ssid, {}) : Home[y] = Home[c] } }
             IN  /\ held' = r.held /\ trie' = r.trie
                 /\ out'  = [Quiet EXCEPT ![c].s = <<IF status THEN PStatus(w, who) ELSE PResp("presence", 200)>> \o ack]
                 /\ UNCHANGED <<conn, user, will, links, store>>
